@@ -225,8 +225,29 @@ glamfit_complex(const struct ndsparse* data, const double* weights, const double
 	    printf("Computing least square solution...\n");
 
 	if (monodim != PHOTOSPLINE_GLAM_NO_MONODIM) {
+		/*
+		 * The stopping and pivoting tolerances of the non-negative
+		 * solver are absolute numbers, tuned for right-hand sides
+		 * of order one. The solution is homogeneous in the right-hand
+		 * side, so solve the problem normalised to max|A'b| = 1 and
+		 * scale the solution back: the fit of c*data is then c times
+		 * the fit of data (as for the unconstrained fit), and tables
+		 * with small values are not truncated to zero.
+		 */
+		double rscale = 0;
+		for (i = 0; i < Rdens->nrow * Rdens->ncol; i++)
+			if (fabs(((double *)(Rdens->x))[i]) > rscale)
+				rscale = fabs(((double *)(Rdens->x))[i]);
+		if (!(rscale > 0) || isinf(rscale))
+			rscale = 1;
+		for (i = 0; i < Rdens->nrow * Rdens->ncol; i++)
+			((double *)(Rdens->x))[i] /= rscale;
 		coefficients = nnls_normal_block3(fitmat, Rdens,
 		    verbose, c);
+		if (coefficients != NULL)
+			for (i = 0; i < coefficients->nrow *
+			    coefficients->ncol; i++)
+				((double *)(coefficients->x))[i] *= rscale;
 	} else {
 		/* XXX: clamped to one iteration */
 		coefficients = cholesky_solve(fitmat, Rdens, c,
